@@ -464,6 +464,15 @@ Ok_C02c ==
              /\ (rq.k = "Custom" /\ SidOf(pre, c) = s /\ rq.to = <<>> /\ rq.len <= MaxBody) =>
                    n({"CUSTOM_BROADCAST"}, LAMBDA m : m.pid = PidOf(pre, c) /\ m.dig = rq.dig) = 1
 
+\* C03 / C12 after a concurrent block (and in every later step of such a history): the state invariants
+\* the two properties rest on
+Ok_C03c == IsStep /\ ev.ret # "deadlock" => ev.orphans = {}
+Ok_C12c == IsStep /\ ev.ret # "deadlock" =>
+             /\ ev.obsOK
+             /\ \A s \in DOMAIN cur.sess :
+                  /\ \A n1, n2 \in DOMAIN cur.sess[s].types : cur.sess[s].types[n1] = cur.sess[s].types[n2] => n1 = n2
+                  /\ \A k \in DOMAIN cur.sess[s].comps : k[1] \in Rng(cur.sess[s].types) /\ k[2] \in DOMAIN cur.sess[s].ents
+
 (***************************************************************************)
 (* C10  server-issued ids never collide and are never reissued             *)
 (***************************************************************************)
